@@ -393,6 +393,11 @@ fn nested_too_deep(line: &str) -> bool {
     let mut in_string = false;
     let mut quote = '"';
     let mut previous = ' ';
+    // prefix operators of the operand so far; names and parentheses between them do not end the
+    // nesting ('~~low(~~low(...'), a comma does
+    let mut prefixes = 0usize;
+    // the last character that is not a blank
+    let mut significant = ',';
     for c in line.chars() {
         if in_string {
             in_string = c != quote;
@@ -418,6 +423,15 @@ fn nested_too_deep(line: &str) -> bool {
                 ' ' | '\t' => {}
                 _ => run = 0,
             }
+            match c {
+                ',' => prefixes = 0,
+                '!' | '~' => prefixes += 1,
+                '-' if "+-*/%&|^<>=!~(,".contains(significant) => prefixes += 1,
+                _ => {}
+            }
+            if c != ' ' && c != '\t' {
+                significant = c;
+            }
             // a chain of binary operators nests once per operator as well; a '/' counts when it is
             // known not to begin a comment
             if previous == '/' {
@@ -428,7 +442,11 @@ fn nested_too_deep(line: &str) -> bool {
                 '+' | '-' | '*' | '%' | '&' | '|' | '^' | '<' | '>' | '=' => chain += 1,
                 _ => {}
             }
-            if depth > MAX_NESTING || run > MAX_NESTING || chain > 2 * MAX_NESTING {
+            if depth > MAX_NESTING
+                || run > MAX_NESTING
+                || prefixes > MAX_NESTING
+                || chain > 2 * MAX_NESTING
+            {
                 return true;
             }
         }
